@@ -26,6 +26,79 @@ std::string glue_encode(const generic_compiler& c, const std::string& policy) {
     return os.str();
 }
 
+// forward declarations for every method of a policy: through the library's
+// add_forward_declarations<Policy>() or, for comparison, name by name
+template<class P>
+std::string glue_fwd_policy(bool via_wrapper) {
+    yorel::yomm2::generator gen;
+    if (via_wrapper) {
+        gen.add_forward_declarations<P>();
+    } else {
+        for (auto& m : P::methods)
+            gen.add_forward_declaration(
+                std::string_view(boost::core::demangle(reinterpret_cast<const std::type_info*>(m.method_type)->name())));
+    }
+    std::ostringstream os;
+    gen.write_forward_declarations(os);
+    return os.str();
+}
+#define VF_INST2(P) template std::string glue_fwd_policy<P>(bool);
+VF_WORLD_LIST(VF_INST2)
+#undef VF_INST2
+
+} // namespace vf
+
+namespace fwdzoo {
+namespace a {
+struct X {};
+namespace b {
+struct Y {};
+template<class T>
+struct Tpl {};
+} // namespace b
+} // namespace a
+struct Z {};
+namespace ab {
+struct X {};
+}
+} // namespace fwdzoo
+
+namespace vf {
+
+// the three ways of naming one type must produce the same declarations
+template<class T>
+static void one_type(std::vector<std::string>& out) {
+    std::string r[3];
+    for (int k = 0; k < 3; ++k) {
+        yorel::yomm2::generator gen;
+        if (k == 0)
+            gen.add_forward_declaration<T>();
+        else if (k == 1)
+            gen.add_forward_declaration(typeid(T));
+        else
+            gen.add_forward_declaration(std::string_view(boost::core::demangle(typeid(T).name())));
+        std::ostringstream os;
+        gen.write_forward_declarations(os);
+        r[k] = os.str();
+    }
+    out.push_back(boost::core::demangle(typeid(T).name()));
+    out.push_back(r[0]);
+    out.push_back(r[1]);
+    out.push_back(r[2]);
+}
+
+std::vector<std::string> glue_fwd_wrapper_routes() {
+    std::vector<std::string> out;
+    one_type<fwdzoo::a::X>(out);
+    one_type<fwdzoo::a::b::Y*>(out);
+    one_type<const fwdzoo::Z&>(out);
+    one_type<fwdzoo::a::b::Tpl<fwdzoo::ab::X>>(out);
+    one_type<void (*)(fwdzoo::a::X&, const fwdzoo::ab::X*, int)>(out);
+    one_type<std::shared_ptr<fwdzoo::a::b::Y>>(out);
+    one_type<std::pair<fwdzoo::Z*, const fwdzoo::a::X*>>(out);
+    return out;
+}
+
 std::string glue_forward_declarations(const std::vector<std::string>& inputs) {
     yorel::yomm2::generator gen;
     for (auto& s : inputs)
